@@ -403,6 +403,10 @@ size_t indexOf(const VariablePtr &variable, const ComponentConstPtr &component)
 bool areEquivalentVariables(const VariablePtr &variable1,
                             const VariablePtr &variable2)
 {
+    if ((variable1 == nullptr) || (variable2 == nullptr)) {
+        return false;
+    }
+
     return (variable1 == variable2) || variable1->hasEquivalentVariable(variable2, true);
 }
 
